@@ -19,9 +19,9 @@ import (
 func itoa(i int) string { return strconv.Itoa(i) }
 
 type Violation struct {
-	Kind   string      `json:"kind"`  // "spec" (property falsified on the implementation) | "panic" | ...
-	Desc   string      `json:"desc"`  // what fails
-	Key    string      `json:"key"`   // stable identification used by known_findings.json
+	Kind   string      `json:"kind"`   // "spec" (property falsified on the implementation) | "panic" | ...
+	Desc   string      `json:"desc"`   // what fails
+	Key    string      `json:"key"`    // stable identification used by known_findings.json
 	Replay interface{} `json:"replay"` // concrete input / configuration / history
 }
 
@@ -41,14 +41,14 @@ type Report struct {
 }
 
 type Ctx struct {
-	Prop   string
-	Tier   string
-	Seed   int64
-	Out    string
-	R      *rand.Rand
-	Rep    *Report
-	sets   []*CaseSet
-	seen   map[string]bool // structural hashes of non-trivial cases
+	Prop string
+	Tier string
+	Seed int64
+	Out  string
+	R    *rand.Rand
+	Rep  *Report
+	sets []*CaseSet
+	seen map[string]bool // structural hashes of non-trivial cases
 }
 
 func (c *Ctx) Thorough() bool { return c.Tier == "thorough" }
